@@ -194,4 +194,122 @@ theorem ginv_popBlock {S : GSess} {st : St} (hg : GInv S st) (off : Nat) (blk : 
       · simp at hi; rw [← hi]; exact blockOK_deallocate blk
       · exact hg.blocks i b hi
 
+theorem ginv_writeLoop (P : Params) (S : GSess) (L : S.Laws P.codec) (fuel : Nat) (st : St) (sbn : Nat)
+    {st' : St} {b : Bool}
+    (hi : Inv st) (ho : st.writer = some .opened) (hj : JInv P st) (hg : GInv S st)
+    (h : writeLoop P fuel st sbn = .ok (st', b)) : (b = true → GInv S st') ∧ GStat S st' := by
+  induction fuel generalizing st sbn with
+  | zero => simp [writeLoop] at h
+  | succ n ih =>
+    unfold writeLoop at h
+    split at h
+    · simp at h; obtain ⟨rfl, rfl⟩ := h; exact ⟨fun _ => hg, hg.toGStat⟩
+    · rename_i hge
+      split at h
+      · simp at h; obtain ⟨rfl, rfl⟩ := h; exact ⟨fun _ => hg, hg.toGStat⟩
+      · rename_i blk hblk
+        split at h
+        · simp at h; obtain ⟨rfl, rfl⟩ := h; exact ⟨fun _ => hg, hg.toGStat⟩
+        · have jo := hj.opened ho
+          obtain ⟨T, C, h1, h2, h3, h4⟩ := jo.ex
+          have hTl : T = S.T.length := by
+            cases hg.tl with
+            | inl x => rw [x] at h1; simp at h1
+            | inr x => rw [x] at h1; simpa using h1.symm
+          have hC : C = .null := by
+            cases hg.cenc with
+            | inl x => rw [x] at h2; simp at h2
+            | inr x => rw [x] at h2; simpa using h2.symm
+          have hT : T ≠ 0 := by
+            intro hT
+            have hn := (h3 hT).1
+            simp [bwWrite, hn] at h
+          obtain ⟨w, hbw, b0, c, d, e⟩ := h4 hT
+          have e' := e hC
+          have hidx : sbn - st.blocksOffset < st.blocks.length := by
+            have := List.getElem?_eq_some_iff.mp hblk
+            exact this.1
+          have hsbn : sbn < S.n := by have := hg.room; omega
+          have hbok : BOK S sbn blk := by
+            have := hg.blocks _ _ hblk
+            have e0 : st.blocksOffset + (sbn - st.blocksOffset) = sbn := by omega
+            rw [e0] at this; exact this
+          have hpre := hg.opened ho w hbw
+          split at h
+          · simp at h
+          · rename_i st1 heq
+            simp at h; obtain ⟨rfl, rfl⟩ := h
+            exact ⟨fun hf => (by cases hf), hg.toGStat.wr (wr_bwWrite _ _ _ _ heq)⟩
+          · rename_i st1 heq
+            simp at h; obtain ⟨rfl, rfl⟩ := h
+            have := (jw_bwWrite _ _ _ _ _ hbw d heq).1 rfl
+            rw [this]; exact ⟨fun _ => hg, hg.toGStat⟩
+          · rename_i st1 heq
+            have hwr := wr_bwWrite _ _ _ _ heq
+            have h1' := hi.wr ho hwr
+            obtain ⟨hws, data, hsrc, hp⟩ := (jw_bwWrite _ _ _ _ _ hbw d heq).2.2 rfl
+            obtain ⟨w', p1, p2, p3, p4, p5, p6, p7⟩ := hp.ex
+            have hdata : data = S.D sbn := blockOK_sourceBlock hbok data hsrc
+            have hw1 := p7 (b0.trans hC) e'.1
+            -- the bytes written so far are the first sbn+1 blocks
+            have hwritten : st1.written = S.pre (sbn + 1) := by
+              rw [hw1.1, hpre.1, hws, L.preS sbn hsbn, hdata]
+              congr 2
+              have := e'.2
+              rw [hpre.1, hws] at this
+              omega
+            have hg1 : GInv S st1 := by
+              refine ⟨hg.toGStat.wr hwr, ?_, ?_, ?_⟩
+              · rw [hwr.same.blocks, hwr.off]; exact hg.blocks
+              · intro _ w2 hw2
+                have : w2 = w' := by rw [p1] at hw2; simpa using hw2.symm
+                subst this
+                rw [p3, hws]; exact ⟨hwritten, hsbn⟩
+              · intro hc; rw [h1'.2] at hc; simp at hc
+            split at h
+            · simp at h
+            · split at h
+              · simp at h
+              · split at h
+                · simp at h
+                · rename_i w2 hw2
+                  have : w2 = w' := by rw [p1] at hw2; simpa using hw2.symm
+                  subst this
+                  have hpb := inv_popBlock h1'.1 (by simp [p1]) (sbn - st.blocksOffset) blk
+                  have sj := sameJ_popBlock st1 (sbn - st.blocksOffset) blk
+                  have hg2 := ginv_popBlock hg1 (sbn - st.blocksOffset) blk (by rw [hwr.same.blocks]; exact hidx)
+                  have ho2 := hpb.2.trans h1'.2
+                  split at h
+                  · rename_i hz
+                    simp at h; obtain ⟨rfl, rfl⟩ := h
+                    -- everything is written
+                    have hall : (popBlock st1 (sbn - st.blocksOffset) blk).written = S.T := by
+                      rw [St.written, sj.out, ← St.written, hwritten]
+                      apply (L.pre_prefix (sbn + 1) hsbn).eq_of_length
+                      have hl : st1.written.length + w2.bytesLeft = T := by
+                        rw [hw1.1, List.length_append, p4]
+                        have := trimTo_length_le w.bytesLeft data
+                        have := e'.2
+                        omega
+                      rw [hwritten, hz, hTl] at hl
+                      omega
+                    have : GInv S (finishObject (popBlock st1 (sbn - st.blocksOffset) blk) w2) := by
+                      unfold finishObject
+                      split
+                      · exact ginv_complete hg2.toGStat (Or.inr ho2) (fun _ => hall)
+                      · exact ginv_error _ hg2.toGStat (Or.inr ho2)
+                    exact ⟨fun _ => this, this.toGStat⟩
+                  · rename_i hnz
+                    have jo1 : JOpen st1 := by
+                      refine ⟨hp.nc, T, C, hp.same.tl.trans h1, hp.same.cenc.trans h2, fun hT0 => absurd hT0 hT, fun _ => ?_⟩
+                      refine ⟨w2, p1, p2.trans b0, hnz, p5 hnz, fun _ => ?_⟩
+                      refine ⟨hw1.2, ?_⟩
+                      rw [hw1.1, List.length_append, p4]
+                      have := trimTo_length_le w.bytesLeft data
+                      have := e'.2
+                      omega
+                    have jinv1 : JInv P st1 := by
+                      refine ⟨?_, fun _ => jo1, ?_, ?_⟩ <;> simp [h1'.2]
+                    exact ih _ _ hpb.1 ho2 (jinv1.sameJ sj) hg2 h
+
 end Flute.ObjRecv
